@@ -1,4 +1,4 @@
 /* the commitment scheme object is opaque here (its own stream constructor is the same idiom as the one
  * proved in C12_ctor): only its existence matters */
 typedef struct PedersenCommitmentScheme PedersenCommitmentScheme;
-struct PedersenCommitmentScheme { int opaque; };
+struct PedersenCommitmentScheme { int opaque; unsigned char ghost_checkgroup_verdict; /* what its own CheckGroup (under contract in C06_pedersen) answers */ };
